@@ -153,3 +153,23 @@ Theorem C07_bulk_failure_leaves_later_minerals : forall n chi (pre : list (@hist
   @update_all NumR n chi (map fst pre ++ h :: post_h) (map Ok (map snd pre) ++ Err e :: post_y) acc
   = (Err e, map (fun m => step n chi (fst m) (Ok (snd m))) pre ++ h :: post_h).
 Proof. exact bulk_failure. Qed.
+
+(* an update whose integrator hands back the start vector unchanged (null forcing: every component of the modelled
+   vector field is zero, C07_null_regime_vector_field / C07_zero_strain_rate) returns the same F and stores the SAME
+   snapshot again -- provided no grain is below the sliding threshold chi/n (chi = 0 included) ... *)
+Theorem C07_null_update_keeps_snapshot : forall n chi (Fd : list R) (s : @snapshot NumR),
+  length Fd = 9%nat -> valid_snapshot n s -> Forall (fun f => thr chi n <= f) (sn_f s) ->
+  @update NumR n chi s (@y_start NumR Fd s) = (Fd, s).
+Proof. exact null_update_identity. Qed.
+
+(* ... and the literal clause "volume fractions unchanged" is REFUTED for the faithful model otherwise (open finding
+   C07:null-forcing:gbs-refloor): a valid snapshot with a grain below chi/n is re-floored and renormalised *)
+Theorem C07_null_update_refloor_refuted :
+  valid_snapshot 2 snap_small /\ 0 <= 0.3 /\
+  sn_f (snd (@update NumR 2 0.3 snap_small (@y_start NumR id9 snap_small))) <> sn_f snap_small.
+Proof. exact null_update_refloors. Qed.
+
+(* non-vacuity of C07_null_update_keeps_snapshot: snap_ex = two identity grains with volumes (1/4, 3/4), chi = 0.3 *)
+Example C07_null_update_nonvacuous :
+  length id9 = 9%nat /\ valid_snapshot 2 snap_ex /\ Forall (fun f => thr 0.3 2 <= f) (sn_f snap_ex).
+Proof. exact null_update_nonvacuous_proof. Qed.
